@@ -294,6 +294,16 @@ fn run_n<const N: usize>(c: &Case) -> Outcome {
             }));
             out.panicked = r.is_err();
             disarm();
+            if matches!(op, "swap" | "index" | "index_mut" | "range" | "range_mut" | "drain_new") {
+                let must = match op {
+                    "swap" => c.a >= c.size || c.b >= c.size,
+                    "index" | "index_mut" => c.a >= c.size,
+                    _ => c.a > c.b || c.b > c.size,
+                };
+                if must != out.panicked {
+                    out.violations.push(format!("{}: panicked={} but the documented condition says {}", op, out.panicked, must));
+                }
+            }
             if matches!(op, "swap" | "index" | "index_mut" | "range" | "range_mut" | "drain_new") && out.panicked {
                 let after: Vec<u8> = b.iter().map(|t| t.0).collect();
                 if after != before {
@@ -520,6 +530,34 @@ pub fn main_sweep(args: &[String]) -> i32 {
         }
     }
     0
+}
+
+/// `replay e2-judge N [kinds]`: run the whole case space natively and report every case whose post-conditions
+/// fail (used when the solver path is undecided because the translator met a construct it does not know)
+pub fn main_judge(args: &[String]) -> i32 {
+    std::panic::set_hook(Box::new(|_| {}));
+    let n: usize = args.get(0).and_then(|x| x.parse().ok()).unwrap_or(3);
+    let kinds: Vec<usize> = args.get(1).map(|k| k.split(',').filter_map(|x| x.parse().ok()).collect()).unwrap_or_default();
+    let mut bad = 0;
+    for c in sweep_cases(n) {
+        if !kinds.is_empty() && !kinds.contains(&c.kind) {
+            continue;
+        }
+        if let Some(o) = run(&c) {
+            if !o.violations.is_empty() {
+                bad += 1;
+                if bad <= 5 {
+                    println!("E2JUDGE op={} N={} M={} start={} size={} a={} b={} start2={} size2={} kind={} at={} :: {}", c.op, c.n, c.m, c.start, c.size, c.a, c.b, c.start2, c.size2, c.kind, c.at, o.violations.join("; "));
+                }
+            }
+        }
+    }
+    println!("E2JUDGE-DONE N={} failing_cases={}", n, bad);
+    if bad > 0 {
+        1
+    } else {
+        0
+    }
 }
 
 pub fn sweep_cases(n: usize) -> Vec<Case> {
